@@ -2263,6 +2263,9 @@ class PyCdlib:
         # File Entry still are one file.
         empty_fe_extent_to_inode = {}  # type: Dict[int, inode.Inode]
         udf_file_entries = collections.deque([self.udf_root])
+        # A directory that is reached a second time (through a File Identifier
+        # that points back at an ancestor, say) would keep us walking forever.
+        seen_dir_extents = set([abs_file_entry_extent])
         while udf_file_entries:
             udf_file_entry = udf_file_entries.popleft()
 
@@ -2315,6 +2318,9 @@ class PyCdlib:
                     next_entry.file_ident = file_ident
 
                     if file_ident.is_dir():
+                        if abs_file_entry_extent in seen_dir_extents:
+                            raise pycdlibexception.PyCdlibInvalidISO('More than one UDF File Identifier points at the same directory')
+                        seen_dir_extents.add(abs_file_entry_extent)
                         udf_file_entries.append(next_entry)
                     else:
                         if next_entry.get_data_length() > 0:
